@@ -59,8 +59,12 @@ func (vc *VC) instr(ins ssa.Instruction) {
 		// requires arg1 == origTask.Silent"; arg0 is the object, arg1 the value), evaluated in the state AT the store
 		if n := storeSiteName(ins); n != "" && vc.fc != nil && len(vc.fc.Sites) > 0 {
 			fa := ins.Addr.(*ssa.FieldAddr)
-			vc.siteClauses(n, vc.ordinalOf(ins, n), "site-requires", map[string]sval{
-				"arg0": {term: vc.val(fa.X), typ: fa.X.Type()}, "arg1": {term: vc.val(ins.Val), typ: ins.Val.Type()}}, ins.Pos())
+			args := map[string]sval{"arg0": {term: vc.val(fa.X), typ: fa.X.Type()}, "arg1": {term: vc.val(ins.Val), typ: ins.Val.Type()}}
+			ord := vc.ordinalOf(ins, n)
+			vc.siteClauses(n, ord, "site-requires", args, ins.Pos())
+			vc.store(ins.Addr, vc.val(ins.Val), ins.Val.Type(), ins.Pos())
+			vc.siteClauses(n, ord, "site-post", args, ins.Pos()) // ghost assignments of "site store:T.f ghost ..."
+			return
 		}
 		vc.store(ins.Addr, vc.val(ins.Val), ins.Val.Type(), ins.Pos())
 	case *ssa.Call:
@@ -206,6 +210,18 @@ func privateAlloc(a *ssa.Alloc) bool {
 				if x.X != v || !ok(x, depth+1) {
 					return false
 				}
+			case *ssa.MakeClosure:
+				// captured by a closure that only ever READS it (and hands it to nested closures that only read it):
+				// whenever that closure runs, it cannot change the local
+				inner, isFn := x.Fn.(*ssa.Function)
+				if !isFn {
+					return false
+				}
+				for i, b := range x.Bindings {
+					if b == v && (i >= len(inner.FreeVars) || !readOnlyUse(inner.FreeVars[i], depth+1)) {
+						return false
+					}
+				}
 			default:
 				return false
 			}
@@ -213,6 +229,40 @@ func privateAlloc(a *ssa.Alloc) bool {
 		return true
 	}
 	return ok(a, 0)
+}
+
+// readOnlyUse: the address v (a captured variable, or the address of one of its parts) is only loaded from.
+func readOnlyUse(v ssa.Value, depth int) bool {
+	refs := v.Referrers()
+	if refs == nil || depth > 6 {
+		return false
+	}
+	for _, r := range *refs {
+		switch x := r.(type) {
+		case *ssa.DebugRef:
+		case *ssa.UnOp:
+			if x.Op != token.MUL {
+				return false
+			}
+		case *ssa.FieldAddr:
+			if x.X != v || !readOnlyUse(x, depth+1) {
+				return false
+			}
+		case *ssa.MakeClosure:
+			inner, isFn := x.Fn.(*ssa.Function)
+			if !isFn {
+				return false
+			}
+			for i, b := range x.Bindings {
+				if b == v && (i >= len(inner.FreeVars) || !readOnlyUse(inner.FreeVars[i], depth+1)) {
+					return false
+				}
+			}
+		default:
+			return false
+		}
+	}
+	return true
 }
 
 // zeroInit sets the object at ref r of type t to its zero value.
